@@ -23,6 +23,7 @@ def run(ctx):
     skippers.struct_loop(rep, 'R07.h', prog)
     skippers.struct_pairing(rep, 'R07.p', prog)
     skippers.shared_skipper_is_order_neutral(rep, 'R07.a', prog)
+    skippers.default_skipper_binary_arm(rep, 'R07.a', prog)
     # what the default skipper adds up for container / field headers (*_len) is what the family's writers put there
     import c04
     for f_ in ('binary', 'binary_le'):
